@@ -105,38 +105,8 @@ func C08(p *core.Program, r *core.Report) {
 	}
 	r.Check(okTag, "key-derivation/"+fname(bpp)+"/kind-tagged", "the hashed name of a whole bundle's file and of a fragment's file start with different literal prefixes, so that no whole bundle's name equals a fragment's (an endpoint may contain '-' and digits)", p.Pos(bpp.Pos()), "", whyTag)
 
-	// ---- OR: Push
+	checkFileBeforeIndex(p, r)
 	push := p.Func(storagePkg, "Store", "Push")
-	nIdx := 0
-	core.EachInstr(push, func(in ssa.Instruction) {
-		c, ok := in.(ssa.CallInstruction)
-		if !ok || !(isBhCall(c, "Insert") || isBhCall(c, "Update")) {
-			return
-		}
-		nIdx++
-		conds := core.DominatingConds(c.Block())
-		okFile := false
-		for _, sc := range core.CallsTo(push, storagePkg+".BundlePart.storeBundle") {
-			if errNilGuard(conds, sc.(ssa.Value)) && core.MustPassBefore(c, func(i ssa.Instruction) bool { return i == ssa.Instruction(sc) }) {
-				okFile = true
-			}
-		}
-		r.Check(okFile, fmt.Sprintf("file-before-index/%s/index-write#%d", fname(push), nIdx), "the index entry is written only after the part file was stored successfully", p.Pos(c.Pos()), "", "index write reachable without a successful storeBundle; "+condStrings(conds))
-	})
-	r.Min("index writes in Push", 2)
-	r.Count("index writes in Push", nIdx)
-	for _, sc := range core.CallsTo(push, storagePkg+".BundlePart.storeBundle") {
-		// error is returned
-		okRet := false
-		for _, rv := range core.ReturnValues(push, 0) {
-			if rv.V == sc.(ssa.Value) {
-				if errNonNilGuard(core.DominatingConds(rv.At.Block()), sc.(ssa.Value)) {
-					okRet = true
-				}
-			}
-		}
-		r.Check(okRet, "file-before-index/"+fname(push)+"/store-error-returned", "a failed part-file write is returned to the caller", p.Pos(sc.Pos()), "", "storeBundle's error is not returned")
-	}
 	// Delete: the index record goes first, then all part files. A record is what
 	// makes a bundle visible (QueryId, QueryPending): it must never outlive its
 	// files, an orphaned file is harmless.
@@ -270,7 +240,28 @@ func C08(p *core.Program, r *core.Report) {
 		}
 		r.Check(okAlias, fmt.Sprintf("store/%s/removed-parts-not-overwritten#%d", fname(push), nRm), "the list of superseded parts whose files are removed does not share its backing array with the list written into the record before", p.Pos(dc.Pos()), "", why)
 	}
-	r.Count("part-file removals in Push", nRm)
+	// ... and they are removed only once the record was switched over successfully: a removal that also runs on the
+	// error exits of Push (a deferred clean-up registered before the file write / the record update) leaves the record
+	// pointing at fragment files that are gone when the write of the whole bundle fails
+	nRmDeep := 0
+	core.EachInstrDeep(push, func(f *ssa.Function, in ssa.Instruction) {
+		dc, ok := in.(ssa.CallInstruction)
+		if !ok || !core.NameIs(core.CalleeName(dc), storagePkg+".BundlePart.deleteBundle") {
+			return
+		}
+		nRmDeep++
+		okAfter := false
+		if f == push {
+			conds := core.DominatingConds(in.Block())
+			for _, uc := range core.CallsTo(push, bhPkg+".Store.Update") {
+				if errNilGuard(conds, uc.(ssa.Value)) && core.MustPassBefore(in, func(i ssa.Instruction) bool { return i == ssa.Instruction(uc) }) {
+					okAfter = true
+				}
+			}
+		}
+		r.Check(okAfter, fmt.Sprintf("store/%s/removes-after-switch#%d", fname(push), nRmDeep), "the files of superseded fragments are removed only on the path on which the record was updated successfully (not from a deferred clean-up that also runs when the whole bundle's file or the record update failed)", p.Pos(in.Pos()), "", "the removal is reachable although storeBundle or the record update failed: the record still lists the fragments, whose files are gone")
+	})
+	r.Count("part-file removals in Push", nRm+nRmDeep)
 	r.Min("part-file removals in Push", 1)
 
 	// Load agrees with IsComplete: a record that is not fragmented is complete and is loaded directly
@@ -630,5 +621,43 @@ func checkStoreOpensAfterKill(p *core.Program, r *core.Report) {
 			}
 		})
 		r.Check(ok, "crash/"+fname(ns)+"/truncate-allowed", "the index database is opened with Options.Truncate = true, so that a write cut short by a kill costs only that unacknowledged entry and not the start of the node", p.Pos(oc.Pos()), "", "Options.Truncate is not set before badgerhold.Open: after a kill within a Push/Update/Delete the store, and with it the node, does not start any more ('Value log truncate required')")
+	}
+}
+
+
+// checkFileBeforeIndex (shared by C05 and C08): Push writes a part's file first and its index record only after that
+// succeeded, and returns a failed file write to its caller. A record without a file makes the retry of an accepted,
+// pending bundle fail for ever (and a second Push of the same bundle is then acknowledged as "known").
+func checkFileBeforeIndex(p *core.Program, r *core.Report) {
+	push := p.Func(storagePkg, "Store", "Push")
+	nIdx := 0
+	core.EachInstr(push, func(in ssa.Instruction) {
+		c, ok := in.(ssa.CallInstruction)
+		if !ok || !(isBhCall(c, "Insert") || isBhCall(c, "Update")) {
+			return
+		}
+		nIdx++
+		conds := core.DominatingConds(c.Block())
+		okFile := false
+		for _, sc := range core.CallsTo(push, storagePkg+".BundlePart.storeBundle") {
+			if errNilGuard(conds, sc.(ssa.Value)) && core.MustPassBefore(c, func(i ssa.Instruction) bool { return i == ssa.Instruction(sc) }) {
+				okFile = true
+			}
+		}
+		r.Check(okFile, fmt.Sprintf("file-before-index/%s/index-write#%d", fname(push), nIdx), "the index entry is written only after the part file was stored successfully", p.Pos(c.Pos()), "", "index write reachable without a successful storeBundle; "+condStrings(conds))
+	})
+	r.Min("index writes in Push", 2)
+	r.Count("index writes in Push", nIdx)
+	for _, sc := range core.CallsTo(push, storagePkg+".BundlePart.storeBundle") {
+		// error is returned
+		okRet := false
+		for _, rv := range core.ReturnValues(push, 0) {
+			if rv.V == sc.(ssa.Value) {
+				if errNonNilGuard(core.DominatingConds(rv.At.Block()), sc.(ssa.Value)) {
+					okRet = true
+				}
+			}
+		}
+		r.Check(okRet, "file-before-index/"+fname(push)+"/store-error-returned", "a failed part-file write is returned to the caller", p.Pos(sc.Pos()), "", "storeBundle's error is not returned")
 	}
 }
